@@ -281,7 +281,7 @@ def make_generator(rnd):
             return gen(d - 1) / gen(d - 1)
         if k < 0.93:
             e = rnd.choice([2, 3, -1, -2, Rational(1, 2), Rational(-1, 2), Rational(3, 2), Rational(1, 3), Rational(-2, 3), rnd.choice(syms), -rnd.choice(syms),
-                            rnd.choice(syms) + 1])
+                            rnd.choice(syms) + 1, 1 / rnd.choice(syms), 1 / sqrt(rnd.choice(syms)), Rational(1, 4)])
             return gen(d - 1) ** e
         f = rnd.choice([sin, cos, exp, log, Abs, sqrt, tan, sinh, atan])
         if f is log and rnd.random() < 0.3:
